@@ -409,7 +409,7 @@ func (lc *localizer) localizeRoot(path string) (string, error) {
 
 	root, err := filesys.ConfirmDir(lc.fSys, ldr.Root())
 	if err != nil {
-		log.Panicf("unable to establish validated root reference %q: %s", path, err)
+		return "", errors.WrapPrefixf(err, "unable to establish validated root reference %q", path)
 	}
 	var locPath string
 	if repo := ldr.Repo(); repo != "" {
